@@ -195,6 +195,11 @@ func condAtomsDepth(v ssa.Value, inline int) map[string]bool {
 			walk(w.Tuple, depth+1)
 		case *ssa.Call:
 			out[atomOf(w)] = true
+			// a getter (every return is a load of one field of its receiver, possibly taken under a lock) stands for
+			// that field: moving a read behind such a method does not change what a condition depends on
+			if u := getterLoad(w); u != nil {
+				out[atomOf(u)] = true
+			}
 			if f := w.Call.StaticCallee(); f != nil && inline > 0 && inModule(f) && f.Blocks != nil &&
 				f.Signature.Results().Len() == 1 && isBool(f.Signature.Results().At(0).Type()) {
 				for _, b := range f.Blocks {
@@ -312,6 +317,53 @@ func inLoop(h, b *ssa.BasicBlock) bool {
 	for _, p := range h.Preds {
 		if h.Dominates(p) && (p == b || blockReaches(b, p, map[*ssa.BasicBlock]bool{h: true})) {
 			return true
+		}
+	}
+	return false
+}
+
+// getterLoad: c calls a module method all of whose returns hand back one and the same load of a field of the
+// receiver (directly or through a local it was copied to); the load is returned.
+func getterLoad(c *ssa.Call) *ssa.UnOp {
+	f := c.Call.StaticCallee()
+	if f == nil || !inModule(f) || f.Blocks == nil || f.Signature.Recv() == nil || f.Signature.Results().Len() != 1 || len(f.Params) != 1 {
+		return nil
+	}
+	var got *ssa.UnOp
+	for _, b := range f.Blocks {
+		rt, ok := b.Instrs[len(b.Instrs)-1].(*ssa.Return)
+		if !ok {
+			continue
+		}
+		if len(rt.Results) != 1 {
+			return nil
+		}
+		u, ok := rt.Results[0].(*ssa.UnOp)
+		if !ok || u.Op != token.MUL {
+			return nil
+		}
+		fa, ok := u.X.(*ssa.FieldAddr)
+		if !ok || fa.X != ssa.Value(f.Params[0]) {
+			return nil
+		}
+		if got != nil && got != u {
+			return nil
+		}
+		got = u
+	}
+	return got
+}
+
+// timeoutResponseOf: v is the ctx's timeout response - the field load itself or a getter call for it.
+func isFieldOrGetter(v ssa.Value, field string) bool {
+	if _, fv := loadedField(v); fv != nil && fv.Name() == field {
+		return true
+	}
+	if c, ok := v.(*ssa.Call); ok {
+		if u := getterLoad(c); u != nil {
+			if _, fv := loadedField(u); fv != nil && fv.Name() == field {
+				return true
+			}
 		}
 	}
 	return false
